@@ -17,6 +17,38 @@ FIRST_MISSED = {
  "C19-b": "WaitForEvents never overlapped a DispatchEvent blocked on the semaphore; concurrent-wait cases added",
  "C19-d": "capturing backends never failed SendEvent; failing-send scripts added",
  "C20-b": "telemetry records never included platform.initRuntimeDone; all Telemetry-API record types and look-alikes added",
+ # round 3
+ "C01-e": "the harness printed an ill-typed trace term when a worker received a map of no batch (reported only as a broken correspondence); log cross-check monitors, optional trace, scripted slow worker added",
+ "C03-e": "requests were never concurrent; burst stream (2-16 goroutines into the router, child process) added",
+ "C03-f": "bad-lines-per-minute was always 0 and no long continuation-byte runs were generated; parser configuration varied, utf8Line shapes added",
+ "C04-e": "no flush was cancelled at the last hand-over with a full datagram channel; stall stream and already-cancelled flushes added (cancellation is C16's quantifier)",
+ "C04-f": "one aggregator flushed at a time; workers stream (2-8 aggregator workers sharing every backend, child process) added",
+ "C05-e": "the real DatagramReceiver and its buffer pool were not exercised; recv stream under sustained traffic added (C03's check caught it)",
+ "C06-e": "no dispatch was ever cancelled; dispatch-cancel and splitseq streams added",
+ "C07-e": "a source never missed the cache again right after its own lookup result; nocache/evict scripts added (C11's check caught it)",
+ "C08-f": "datapoints were built as Metric values, never lexed through the metric pool; lexed datapoints with interleaved traffic added (C05's aliasing monitor caught it)",
+ "C09-f": "the receiver's time stamp is outside the aggregator model; real-time e2e stream through the real receiver added (C05's new timestamp monitor caught it)",
+ "C10-e": "dispatch was single-threaded; concurrent stream through one TagHandler added",
+ "C13-f": "the consumer always kept up; lagging-consumer push/drain ops added",
+ "C14-f": "no real compressed body was damaged in the payload area; tamper stream with the codec libraries as oracle added",
+ "C18-e": "the clock never moved between construction and the goroutine arming its timer; early-advance op added",
+ "C19-e": "the forwarder's upstream never failed; scripted fault layer added",
+ "C20-e": "no invocation outlasted the flush interval; longinv stream with a small flush-interval added",
+ "C02-e": "each result was checked and released before the next line; held stream (one lexer, production-like pool, results held per batch) added (C05's check caught it)",
+ "C02-f": "as C02-e",
+ "C12-f": "the limiter always had rate Inf; limiter configurations with a burst below the batch size added; limiter rule added to the dispatcher model",
+ # round 4
+ "C02-h": "the shared buffer was never overwritten between datagrams; refill scripts (same-offset rewrites of the receive buffer) added",
+ "C03-h": "event bodies carried only declared enum values; arbitrary int32 enums and hand-encoded varints added (C14's check caught it)",
+ "C05-h": "only IPv4 loopback senders; scripted PacketConn with many IPv6 / v4-mapped / zone / non-UDP sender addresses added",
+ "C06-g": "the tag stage in front of dispatch was not exercised; tagged stream with the stored-key = FormatTagsKey(own tags) invariant added (C10's check caught it)",
+ "C08-h": "the variance was compared with an absolute tolerance of 1e-9 max|x|^2; tolerance replaced by the proved bound 1e-9 Var + 5 (n u)^2 max|x|^2 (C08_tolerance_sound_variance_qc), bigmean class added",
+ "C14-h": "random truncation rarely lands on a protobuf field boundary; prefix sweep of real bodies added",
+ "C16-g": "as C04-e (C04's check caught it); cancelled-many and stall cases added to C16",
+ "C16-h": "max-request-elapsed-time was never -1; retry options through the real FromViper constructors (-1, small, default) added",
+ "C17-g": "one flush per fresh client against an always-succeeding endpoint; sequence stream (one client, failed flush then successful ones, strict single-document readers) added",
+ "C20-g": "needs more than 30 s of real time: caught by the THOROUGH tier only (longwait cases of 33 s and 65 s); the quick tier cannot exhibit it",
+ "C20-h": "the fake Runtime API always answered at once; register/subscription latencies 0-200 ms added",
 }
 rows = []
 for d in sorted(glob.glob(os.path.join(ROOT, "seeded", "C??-?"))):
